@@ -9,8 +9,8 @@ import (
 	"strings"
 	"time"
 
-	abci "github.com/cometbft/cometbft/abci/types"
 	storetypes "cosmossdk.io/store/types"
+	abci "github.com/cometbft/cometbft/abci/types"
 	sdk "github.com/cosmos/cosmos-sdk/types"
 	"github.com/cosmos/gogoproto/proto"
 
@@ -36,6 +36,7 @@ type c18Print struct {
 	Resp    string
 	Events  string
 	Updates string
+	Gas     uint64 // gas consumed by the operation (fresh meter per operation), also when it fails
 	Stores  string // hash of the raw dump of all stores after the operation
 }
 
@@ -53,6 +54,8 @@ func (a c18Print) diff(b c18Print) string {
 		return "events"
 	case a.Stores != b.Stores:
 		return "store-bytes"
+	case a.Gas != b.Gas:
+		return "gas" // everything else is equal
 	}
 	return ""
 }
@@ -120,12 +123,39 @@ func updatesString(r interface{}) string {
 
 func printOf(r ExecResult, ctx sdk.Context, keys map[string]*storetypes.KVStoreKey) c18Print {
 	st, _ := dumpStores(ctx, keys)
-	return c18Print{OK: r.OK, Err: r.Err, Resp: respString(r.Resp), Events: eventsString(r.Events), Updates: updatesString(r.Resp), Stores: st}
+	return c18Print{OK: r.OK, Err: r.Err, Resp: respString(r.Resp), Events: eventsString(r.Events), Updates: updatesString(r.Resp),
+		Gas: ctx.GasMeter().GasConsumed(), Stores: st}
+}
+
+// a fresh gas meter before every compared operation: what it consumes (also on the branch of a
+// failing message, which baseapp reports as gas used) is part of the compared trace
+func freshGasL1(e *L1Env) { e.Ctx = e.Ctx.WithGasMeter(storetypes.NewInfiniteGasMeter()) }
+func freshGasL2(e *L2Env) { e.Ctx = e.Ctx.WithGasMeter(storetypes.NewInfiniteGasMeter()) }
+
+// every execution of a history runs on its OWN fresh goroutine (sequentially; the calling
+// goroutine only waits and compares): anything that leaks goroutine identity or stack
+// addresses into an observable differs between executions
+func onOwnGoroutine(fn func()) {
+	done := make(chan interface{})
+	go func() {
+		defer func() { done <- recover() }()
+		fn()
+	}()
+	if p := <-done; p != nil {
+		panic(p)
+	}
 }
 
 // compare R executions; report the first difference
-// returns true when all executions agree
-func c18Compare(rep *Report, id int, family string, runs [][]c18Print, human []string) bool {
+// c18Known lets a family map a difference that is exactly the structural situation of a recorded
+// known finding to that finding's signature (reported once per run, and the comparison goes on);
+// every other difference keeps the generic signature and is a VIOLATION.
+type c18Known func(step int, differsIn string, speculated bool) string
+
+var c18KnownSeen = map[string]bool{}
+
+// returns true when all executions agree (differences that are known findings do not count)
+func c18Compare(rep *Report, id int, family string, runs [][]c18Print, human []string, known ...c18Known) bool {
 	for k := 1; k < len(runs); k++ {
 		if len(runs[k]) != len(runs[0]) {
 			rep.Violate(Violation{Case: id, Step: 0, What: "executions have different lengths", Sig: "C18:nondeterministic-length", Ops: human})
@@ -133,10 +163,22 @@ func c18Compare(rep *Report, id int, family string, runs [][]c18Print, human []s
 		}
 		for i := range runs[0] {
 			if d := runs[0][i].diff(runs[k][i]); d != "" {
-				rep.Violate(Violation{Case: id, Step: i, What: fmt.Sprintf("%s history: execution 1 and execution %d on fresh instances differ in %s at step %d (%s)", family, k+1, d, i, human[i]),
-					Sig: "C18:nondeterministic-" + d, Ops: human[:i+1],
-					Detail: map[string]interface{}{"execution_1": runs[0][i], fmt.Sprintf("execution_%d", k+1): runs[k][i]}})
-				return false
+				sig := "C18:nondeterministic-" + d
+				isKnown := false
+				if len(known) > 0 && known[0] != nil {
+					if ks := known[0](i, d, false); ks != "" {
+						sig, isKnown = ks, true
+					}
+				}
+				if !isKnown || !c18KnownSeen[sig] {
+					c18KnownSeen[sig] = true
+					rep.Violate(Violation{Case: id, Step: i, What: fmt.Sprintf("%s history: execution 1 and execution %d on fresh instances differ in %s at step %d (%s)", family, k+1, d, i, human[i]),
+						Sig: sig, Ops: human[:i+1],
+						Detail: map[string]interface{}{"execution_1": runs[0][i], fmt.Sprintf("execution_%d", k+1): runs[k][i]}})
+				}
+				if !isKnown {
+					return false
+				}
 			}
 		}
 	}
@@ -235,12 +277,23 @@ func c18SpecPlan(r *Rng, n int, always func(i int) bool, skip func(i int) bool) 
 }
 
 // compare the execution with speculation against the plain reference execution
-func c18CompareSpec(rep *Report, id int, family string, ref, spec []c18Print, human []string, plan []int) {
+func c18CompareSpec(rep *Report, id int, family string, ref, spec []c18Print, human []string, plan []int, known ...c18Known) {
 	for i := range ref {
 		if i >= len(spec) {
 			break
 		}
 		if d := ref[i].diff(spec[i]); d != "" {
+			sig := "C18:depends-on-process-history"
+			isKnown := false
+			if len(known) > 0 && known[0] != nil {
+				if ks := known[0](i, d, plan[i] > 0); ks != "" {
+					sig, isKnown = ks, true
+				}
+			}
+			if isKnown && c18KnownSeen[sig] {
+				continue
+			}
+			c18KnownSeen[sig] = true
 			var hist []string
 			for j := 0; j <= i; j++ {
 				if plan[j] > 0 {
@@ -250,9 +303,11 @@ func c18CompareSpec(rep *Report, id int, family string, ref, spec []c18Print, hu
 				}
 			}
 			rep.Violate(Violation{Case: id, Step: i, What: fmt.Sprintf("%s history: a fresh instance that first ran some operations on discarded state branches differs from a fresh instance that did not, in %s at step %d (%s)", family, d, i, human[i]),
-				Sig: "C18:depends-on-process-history", Ops: hist,
+				Sig: sig, Ops: hist,
 				Detail: map[string]interface{}{"without_speculation": ref[i], "with_speculation": spec[i], "differs_in": d}})
-			return
+			if !isKnown {
+				return
+			}
 		}
 	}
 }
@@ -260,8 +315,17 @@ func c18CompareSpec(rep *Report, id int, family string, ref, spec []c18Print, hu
 // ---------------- generators ----------------
 
 // random L2 message schedule (as the random part of the C06 stream, plus executor changes)
-func c18L2Messages(sc *L2Scenario, n int) {
+func c18L2Messages(sc *L2Scenario, n int, smallHookGas bool) {
 	e, r, c := sc.Env, sc.R, sc.Case
+	if smallHookGas {
+		// hook_max_gas so small that every hook transaction runs out of gas inside the ante chain:
+		// the hook PANICS and handleBridgeHook's recover turns the panic into the event's reason
+		ps, _ := e.K.GetParams(e.Ctx)
+		np := &L2Params{Admin: ps.Admin, Execs: append([]string{}, ps.BridgeExecutors...), MaxV: uint64(ps.MaxValidators), Hist: uint64(ps.HistoricalEntries),
+			MinGas: c.Params.MinGas, Whitelist: []string{}, HookGas: 2000}
+		sc.register(e.Auth)
+		c.Do(L2Op{Kind: "params", Sender: e.Auth, Params: np})
+	}
 	for i := 0; i < n; i++ {
 		n1, _ := e.K.GetNextL1Sequence(e.Ctx)
 		switch r.Weighted([]int{55, 12, 12, 8, 5}) {
@@ -286,7 +350,23 @@ func c18L2Messages(sc *L2Scenario, n int) {
 			if r.Chance(8) {
 				to = sc.SenderString(5)
 			}
-			c.Do(sc.Deposit(sender, seq, to, r.Intn(2), big.NewInt(int64(r.Intn(50))), Hook{Kind: "none"}))
+			hook := Hook{Kind: "none"}
+			switch r.Weighted([]int{60, 10, 30}) {
+			case 1:
+				hook = Hook{Kind: "garbage", Raw: append([]byte{0xff}, r.Bytes(1+r.Intn(12))...)}
+			case 2:
+				signer := uint64(1 + r.Intn(6))
+				q := e.AccSeq(signer)
+				if r.Chance(10) {
+					q += 1 + uint64(r.Intn(2))
+				}
+				sends := []HookSend{{To: uint64(1 + r.Intn(6)), Denom: sc.Native, Amt: big.NewInt(int64(1 + r.Intn(20)))}}
+				if r.Chance(20) {
+					sends = append(sends, HookSend{To: uint64(1 + r.Intn(6)), Denom: sc.Native, Amt: big.NewInt(5000)}) // more than the balance
+				}
+				hook = e.MakeHookTx(signer, q, !r.Chance(10), sends)
+			}
+			c.Do(sc.Deposit(sender, seq, to, r.Intn(2), big.NewInt(int64(r.Intn(50))), hook))
 		case 1:
 			from, to := uint64(1+r.Intn(6)), uint64(1+r.Intn(6))
 			d := c.Track.Denoms[r.Intn(len(c.Track.Denoms))]
@@ -536,24 +616,31 @@ func genC18(seed uint64, tier string, outdir string) *Report {
 		human := l1OpsHuman(c.Ops)
 		runs := make([][]c18Print, R)
 		for x := 0; x < R; x++ {
-			sc := NewL1Scenario(s, id, nil)
-			for _, o := range c.Ops {
-				res := sc.Env.L1Exec(o)
-				runs[x] = append(runs[x], printOf(res, sc.Env.Ctx, sc.Env.Keys))
-			}
+			x := x
+			onOwnGoroutine(func() {
+				sc := NewL1Scenario(s, id, nil)
+				for _, o := range c.Ops {
+					freshGasL1(sc.Env)
+					res := sc.Env.L1Exec(o)
+					runs[x] = append(runs[x], printOf(res, sc.Env.Ctx, sc.Env.Keys))
+				}
+			})
 		}
 		if c18Compare(rep, id, "L1", runs, human) { // the same history on a fresh instance that pre-executes operations on discarded branches
 			plan := c18SpecPlan(NewRng(s^0x5bec), len(c.Ops), nil, nil)
 			sc := NewL1Scenario(s, id, nil)
 			var spec []c18Print
-			for i, o := range c.Ops {
-				for x := 0; x < plan[i]; x++ {
-					speculateL1(sc.Env, func() { sc.Env.L1Exec(o) })
-					rep.Hist("l1:speculated")
+			onOwnGoroutine(func() {
+				for i, o := range c.Ops {
+					for x := 0; x < plan[i]; x++ {
+						speculateL1(sc.Env, func() { sc.Env.L1Exec(o) })
+						rep.Hist("l1:speculated")
+					}
+					freshGasL1(sc.Env)
+					res := sc.Env.L1Exec(o)
+					spec = append(spec, printOf(res, sc.Env.Ctx, sc.Env.Keys))
 				}
-				res := sc.Env.L1Exec(o)
-				spec = append(spec, printOf(res, sc.Env.Ctx, sc.Env.Keys))
-			}
+			})
 			c18CompareSpec(rep, id, "L1", runs[0], spec, human, plan)
 			rep.Ops += len(c.Ops)
 		}
@@ -584,29 +671,36 @@ func genC18(seed uint64, tier string, outdir string) *Report {
 		id++
 		s := seed*1000 + 500 + uint64(k)
 		sc := NewL2Scenario(s, id, false)
-		c18L2Messages(sc, lenL2)
+		c18L2Messages(sc, lenL2, k%2 == 1)
 		c := sc.Case
 		human := opsCoq(c.Ops)
 		runs := make([][]c18Print, R)
 		for x := 0; x < R; x++ {
-			f := NewL2Scenario(s, id, false)
-			for _, o := range c.Ops {
-				res := f.Env.L2Exec(o)
-				runs[x] = append(runs[x], printOf(res, f.Env.Ctx, f.Env.Keys))
-			}
+			x := x
+			onOwnGoroutine(func() {
+				f := NewL2Scenario(s, id, false)
+				for _, o := range c.Ops {
+					freshGasL2(f.Env)
+					res := f.Env.L2Exec(o)
+					runs[x] = append(runs[x], printOf(res, f.Env.Ctx, f.Env.Keys))
+				}
+			})
 		}
 		if c18Compare(rep, id, "L2", runs, human) {
 			plan := c18SpecPlan(NewRng(s^0x5bec), len(c.Ops), nil, nil)
 			f := NewL2Scenario(s, id, false)
 			var spec []c18Print
-			for i, o := range c.Ops {
-				for x := 0; x < plan[i]; x++ {
-					speculateL2(f.Env, func() { f.Env.L2Exec(o) })
-					rep.Hist("l2:speculated")
+			onOwnGoroutine(func() {
+				for i, o := range c.Ops {
+					for x := 0; x < plan[i]; x++ {
+						speculateL2(f.Env, func() { f.Env.L2Exec(o) })
+						rep.Hist("l2:speculated")
+					}
+					freshGasL2(f.Env)
+					res := f.Env.L2Exec(o)
+					spec = append(spec, printOf(res, f.Env.Ctx, f.Env.Keys))
 				}
-				res := f.Env.L2Exec(o)
-				spec = append(spec, printOf(res, f.Env.Ctx, f.Env.Keys))
-			}
+			})
 			c18CompareSpec(rep, id, "L2", runs[0], spec, human, plan)
 			rep.Ops += len(c.Ops)
 		}
@@ -615,6 +709,9 @@ func genC18(seed uint64, tier string, outdir string) *Report {
 			if p.OK != c.Results[i].OK {
 				rep.Violate(Violation{Case: id, Step: i, What: "L2 history: a repeated execution gave a different verdict than the generating execution", Sig: "C18:nondeterministic-verdict", Ops: human[:i+1]})
 				break
+			}
+			if strings.Contains(p.Events, "panic:") {
+				rep.Hist("l2:fdep:hook-panicked")
 			}
 			if p.OK {
 				ok = true
@@ -642,26 +739,30 @@ func genC18(seed uint64, tier string, outdir string) *Report {
 		runs := make([][]c18Print, R)
 		big3 := false
 		for x := 0; x < R; x++ {
-			f := NewL2Scenario(s, id, false)
-			for _, o := range ops {
-				res := c18ExecL2(f.Env, o)
-				runs[x] = append(runs[x], printOf(res, f.Env.Ctx, f.Env.Keys))
-				if ups, ok := res.Resp.([]abci.ValidatorUpdate); ok && x == 0 {
-					rem := 0
-					for _, u := range ups {
-						if u.Power == 0 {
-							rem++
+			x := x
+			onOwnGoroutine(func() {
+				f := NewL2Scenario(s, id, false)
+				for _, o := range ops {
+					freshGasL2(f.Env)
+					res := c18ExecL2(f.Env, o)
+					runs[x] = append(runs[x], printOf(res, f.Env.Ctx, f.Env.Keys))
+					if ups, ok := res.Resp.([]abci.ValidatorUpdate); ok && x == 0 {
+						rem := 0
+						for _, u := range ups {
+							if u.Power == 0 {
+								rem++
+							}
 						}
+						if rem >= 3 {
+							big3 = true
+						}
+						if rem > maxRemovals {
+							maxRemovals = rem
+						}
+						rep.Hist(fmt.Sprintf("val:endblock:removals=%d", rem))
 					}
-					if rem >= 3 {
-						big3 = true
-					}
-					if rem > maxRemovals {
-						maxRemovals = rem
-					}
-					rep.Hist(fmt.Sprintf("val:endblock:removals=%d", rem))
 				}
-			}
+			})
 		}
 		planHeights := map[int64]bool{}
 		for i, o := range ops {
@@ -690,14 +791,17 @@ func genC18(seed uint64, tier string, outdir string) *Report {
 				func(i int) bool { return ops[i].Kind == "plan" })
 			f := NewL2Scenario(s, id, false)
 			var spec []c18Print
-			for i, o := range ops {
-				for x := 0; x < plan[i]; x++ {
-					speculateL2(f.Env, func() { c18ExecL2(f.Env, o) })
-					rep.Hist("val:speculated:" + o.Kind)
+			onOwnGoroutine(func() {
+				for i, o := range ops {
+					for x := 0; x < plan[i]; x++ {
+						speculateL2(f.Env, func() { c18ExecL2(f.Env, o) })
+						rep.Hist("val:speculated:" + o.Kind)
+					}
+					freshGasL2(f.Env)
+					res := c18ExecL2(f.Env, o)
+					spec = append(spec, printOf(res, f.Env.Ctx, f.Env.Keys))
 				}
-				res := c18ExecL2(f.Env, o)
-				spec = append(spec, printOf(res, f.Env.Ctx, f.Env.Keys))
-			}
+			})
 			c18CompareSpec(rep, id, "validator-block", runs[0], spec, human, plan)
 			rep.Ops += len(ops)
 		}
